@@ -74,7 +74,8 @@ pub fn gen_props(rng: &mut Rng, n: usize) -> Vec<PropDef> {
         let e = expectation(rng);
         let k = rng.range(1, 254);
         let long = rng.chance(1, 40);
-        let (shape, src) = match if long { 14 } else { rng.below(14) } {
+        let heavy = !long && rng.chance(1, 40);
+        let (shape, src) = match if long { 14 } else if heavy { 15 } else { rng.below(14) } {
             0 => (
                 "monotone-byte",
                 format!("test p{i}(x via fuzz.byte()){e} {{\n  x < {k}\n}}\n"),
@@ -158,6 +159,10 @@ pub fn gen_props(rng: &mut Rng, n: usize) -> Vec<PropDef> {
                     format!("test p{i}(xs via fuzz.list_n(fuzz.byte(), {n})){e} {{\n  last_or_zero(xs) < {k}\n}}\n"),
                 )
             }
+            15 => (
+                "heavy-fuzzer",
+                format!("test p{i}(x via fuzz.heavy()){e} {{\n  x < {k}\n}}\n"),
+            ),
             _ => (
                 "always-false",
                 format!("test p{i}(x via fuzz.byte()){e} {{\n  x > 300\n}}\n"),
@@ -506,6 +511,18 @@ pub fn check_case(tests: &[Test], case: &PropCase) -> Result<CaseOutcome, String
             Ok(Some((_, ref v0))) if v0 == first_value
         );
         out.replay_consistent = consistent;
+        if !consistent {
+            // generation under a seed and replay of the recorded choices are the same pure
+            // function of the choice sequence: every later step (shrinking, reporting) rests on it
+            v(
+                "first-case-not-replayable",
+                format!(
+                    "the first failing case {} was generated from choices {:?}, but replaying those choices does not regenerate it",
+                    uplc::ast::Data::to_hex(first_value.clone()),
+                    first_choices
+                ),
+            );
+        }
         // choices of the shrunk counterexample: run_n_times exposes them
         let mut remaining = case.n;
         let mut labels = BTreeMap::new();
@@ -524,7 +541,7 @@ pub fn check_case(tests: &[Test], case: &PropCase) -> Result<CaseOutcome, String
                     );
                 }
                 // (d) replayable
-                if consistent {
+                {
                     match Prng::from_choices(&cex.choices).sample(&test.fuzzer.program) {
                         Ok(Some((_, replayed))) if replayed == cex.value => {}
                         other => v(
